@@ -555,7 +555,7 @@ func (f *FuncVC) index(st *State, x *ssa.Index) *Val {
 	case KStr:
 		f.oblige(st, "index", src, and(cmp("<=", "0", idx.T), cmp("<", idx.T, "(gstr.len "+base.T+")")))
 		t := f.sc.define("ch", "Int", "(gstr.at "+base.T+" "+idx.T+")")
-		f.sc.assert(and(cmp("<=", "0", t), cmp("<=", t, "255")))
+		f.fact(st, and(cmp("<=", "0", t), cmp("<=", t, "255")))
 		return &Val{K: KInt, Ty: x.Type(), T: t, Lo: big.NewInt(0), Hi: big.NewInt(255)}
 	}
 	f.unsup("index of unsupported value")
@@ -607,9 +607,9 @@ func (f *FuncVC) sliceOp(st *State, x *ssa.Slice) *Val {
 		f.oblige(st, "slice", src, and(cmp("<=", "0", loT), cmp("<=", loT, hiT), cmp("<=", hiT, "(gstr.len "+base.T+")")))
 		f.sc.declareFun("gstr.sub", []string{"Str", "Int", "Int"}, "Str")
 		t := f.sc.define("sub", "Str", "(gstr.sub "+base.T+" "+loT+" "+hiT+")")
-		f.sc.assert(eq("(gstr.len "+t+")", arith("-", hiT, loT)))
+		f.fact(st, eq("(gstr.len "+t+")", arith("-", hiT, loT)))
 		q := f.sc.fresh("k")
-		f.sc.assert(fmt.Sprintf("(forall ((%s Int)) (! (=> (and (<= 0 %s) (< %s (gstr.len %s))) (= (gstr.at %s %s) (gstr.at %s (+ %s %s)))) :pattern ((gstr.at %s %s))))", q, q, q, t, t, q, base.T, q, loT, t, q))
+		f.fact(st, fmt.Sprintf("(forall ((%s Int)) (! (=> (and (<= 0 %s) (< %s (gstr.len %s))) (= (gstr.at %s %s) (gstr.at %s (+ %s %s)))) :pattern ((gstr.at %s %s))))", q, q, q, t, t, q, base.T, q, loT, t, q))
 		return &Val{K: KStr, Ty: x.Type(), T: t}
 	case *types.Pointer:
 		at := bt.Elem().Underlying().(*types.Array)
@@ -703,7 +703,7 @@ func (f *FuncVC) convert(st *State, v *Val, from, to types.Type) *Val {
 		arr := f.sc.fresh("bytes")
 		f.sc.declare(arr, "(Array Int Int)")
 		q := f.sc.fresh("k")
-		f.sc.assert(fmt.Sprintf("(forall ((%s Int)) (! (=> (and (<= 0 %s) (< %s (gstr.len %s))) (= (select %s %s) (gstr.at %s %s))) :pattern ((select %s %s))))", q, q, q, v.T, arr, q, v.T, q, arr, q))
+		f.fact(st, fmt.Sprintf("(forall ((%s Int)) (! (=> (and (<= 0 %s) (< %s (gstr.len %s))) (= (select %s %s) (gstr.at %s %s))) :pattern ((select %s %s))))", q, q, q, v.T, arr, q, v.T, q, arr, q))
 		f.setHeap(st, hn, sort, store(f.heap(st, hn, sort), ref, arr))
 		ln := "(gstr.len " + v.T + ")"
 		r := &Val{K: KSlice, Ty: to, Fs: []*Val{vInt(ref, nil), vInt("0", nil), vInt(ln, nil), vInt(ln, nil)}}
@@ -712,11 +712,11 @@ func (f *FuncVC) convert(st *State, v *Val, from, to types.Type) *Val {
 		et := from.Underlying().(*types.Slice).Elem()
 		s := f.sc.fresh("str")
 		f.sc.declare(s, "Str")
-		f.sc.assert(eq("(gstr.len "+s+")", v.Fs[2].T))
+		f.fact(st, eq("(gstr.len "+s+")", v.Fs[2].T))
 		hn := elemHeapPrefix(et)
 		h := f.heap(st, hn, arraySort(2, "Int"))
 		q := f.sc.fresh("k")
-		f.sc.assert(fmt.Sprintf("(forall ((%s Int)) (! (=> (and (<= 0 %s) (< %s %s)) (= (gstr.at %s %s) (select (select %s %s) (+ %s %s)))) :pattern ((gstr.at %s %s))))", q, q, q, v.Fs[2].T, s, q, h, v.Fs[0].T, v.Fs[1].T, q, s, q))
+		f.fact(st, fmt.Sprintf("(forall ((%s Int)) (! (=> (and (<= 0 %s) (< %s %s)) (= (gstr.at %s %s) (select (select %s %s) (+ %s %s)))) :pattern ((gstr.at %s %s))))", q, q, q, v.Fs[2].T, s, q, h, v.Fs[0].T, v.Fs[1].T, q, s, q))
 		return &Val{K: KStr, Ty: to, T: s}
 	case fk == KInt && tk == KStr:
 		f.sc.declareFun("gstr.of_rune", []string{"Int"}, "Str")
@@ -825,6 +825,9 @@ func (f *FuncVC) phi(st *State, x *ssa.Phi) *Val {
 
 func (f *FuncVC) panicInstr(st *State, x *ssa.Panic) {
 	src := f.srcAt(x.Pos())
+	if f.con != nil && f.con.MayPanic {
+		return
+	}
 	if f.con != nil && len(f.con.PanicsIf) > 0 {
 		// a reachable panic is allowed exactly when the contract says so
 		ev := f.entryEval(st)
